@@ -102,6 +102,96 @@ MUTANTS = [
       "        if verify:\n            d.addCallback(lambda cr: self._verify_all_shares(servermap).addCallback(lambda ign: cr))\n", "C14.6"),
     M("verifier-marks-a-copy", CHK, "        r = Retrieve(self._node, self._storage_broker, servermap,\n                     self.best_version, verify=True)",
       "        r = Retrieve(self._node, self._storage_broker, servermap.copy(),\n                     self.best_version, verify=True)", "C14.6"),
+    # ---- C14.7 version classification in the servermap
+    M("newer-counts-share-instances", SM,       # seeded C14-A
+      "            shnums = set([shnum for (shnum, server, timestamp) in shares])\n            healths[verinfo] = (len(shnums),k)\n"
+      "            if len(shnums) < k:\n",
+      "            healths[verinfo] = (len(shares), k)\n            if len(shares) < k:\n", "C14.7"),
+    M("newer-counts-shnum-list", SM,            # same effect: duplicates are kept because a list is counted
+      "            shnums = set([shnum for (shnum, server, timestamp) in shares])\n            healths[verinfo] = (len(shnums),k)\n",
+      "            shnums = [shnum for (shnum, server, timestamp) in shares]\n            healths[verinfo] = (len(shnums),k)\n", "C14.7"),
+    M("newer-counts-servers", SM,
+      "            shnums = set([shnum for (shnum, server, timestamp) in shares])\n            healths[verinfo] = (len(shnums),k)\n",
+      "            shnums = set([server for (shnum, server, timestamp) in shares])\n            healths[verinfo] = (len(shnums),k)\n", "C14.7"),
+    M("recoverable-counts-share-instances", SM,
+      "            shnums = set([shnum for (shnum, server, timestamp) in shares])\n            if len(shnums) >= k:\n",
+      "            if len(shares) >= k:\n", "C14.7"),
+    M("recoverable-needs-more-than-k", SM, "            if len(shnums) >= k:\n", "            if len(shnums) > k:\n", "C14.7"),
+    M("unrecoverable-includes-exactly-k", SM, "            if len(shnums) < k:\n                unrecoverable_versions.add(verinfo)",
+      "            if len(shnums) <= k:\n                unrecoverable_versions.add(verinfo)", "C14.7"),
+    M("unrecoverable-compares-with-N", SM, "            if len(shnums) < k:\n                unrecoverable_versions.add(verinfo)",
+      "            if len(shnums) < N:\n                unrecoverable_versions.add(verinfo)", "C14.7"),
+    M("newer-needs-gap-of-two", SM, "            if seqnum > highest_recoverable_seqnum:\n                newversions[verinfo]",
+      "            if seqnum > highest_recoverable_seqnum + 1:\n                newversions[verinfo]", "C14.7"),
+    M("highest-seqnum-raised-by-every-version", SM,
+      "                unrecoverable.add(verinfo)\n            else:\n                highest_recoverable_seqnum = max(seqnum,\n"
+      "                                                 highest_recoverable_seqnum)\n",
+      "                unrecoverable.add(verinfo)\n            highest_recoverable_seqnum = max(seqnum,\n"
+      "                                             highest_recoverable_seqnum)\n", "C14.7"),
+    M("highest-seqnum-starts-at-highest", SM, "        highest_recoverable_seqnum = -1\n",
+      "        highest_recoverable_seqnum = self.highest_seqnum()\n", "C14.7"),
+    M("merge-needs-three-heads", SM, "            if recoverable_seqnums.count(seqnum) > 1:", "            if recoverable_seqnums.count(seqnum) > 2:", "C14.7"),
+    M("merge-answers-after-first-seqnum", SM,
+      "            if recoverable_seqnums.count(seqnum) > 1:\n                return True\n        return False",
+      "            if recoverable_seqnums.count(seqnum) > 1:\n                return True\n            return False\n        return False", "C14.7"),
+    M("merge-looks-at-unrecoverable", SM, "                               for verinfo in self.recoverable_versions()]",
+      "                               for verinfo in self.unrecoverable_versions()]", "C14.7"),
+    M("versionmap-tuple-server-first", SM, "            versionmap.add(verinfo, (shnum, server, timestamp))",
+      "            versionmap.add(verinfo, (server, shnum, timestamp))", "C14.7"),
+    M("classify-benign-set-comprehension", SM,
+      "            shnums = set([shnum for (shnum, server, timestamp) in shares])\n            healths[verinfo] = (len(shnums),k)\n",
+      "            shnums = {sh for (sh, _srv, _ts) in shares}\n            healths[verinfo] = (len(shnums),k)\n", None),
+    M("classify-benign-hoisted-count", SM,
+      "            shnums = set([shnum for (shnum, server, timestamp) in shares])\n            if len(shnums) >= k:\n",
+      "            shnums = set([shnum for (shnum, server, timestamp) in shares])\n            found = len(shnums)\n            if not found < k:\n", None),
+    M("classify-benign-set-built-in-loop", SM,
+      "            shnums = set([shnum for (shnum, server, timestamp) in shares])\n            if len(shnums) < k:\n                unrecoverable_versions.add(verinfo)",
+      "            shnums = set()\n            for (shnum, server, timestamp) in shares:\n                shnums.add(shnum)\n"
+      "            if len(shnums) < k:\n                unrecoverable_versions.add(verinfo)", None),
+    M("classify-benign-conditional-raise", SM,
+      "                highest_recoverable_seqnum = max(seqnum,\n                                                 highest_recoverable_seqnum)\n",
+      "                if seqnum > highest_recoverable_seqnum:\n                    highest_recoverable_seqnum = seqnum\n", None),
+    M("classify-benign-merge-closed-form", SM,
+      "        for seqnum in recoverable_seqnums:\n            if recoverable_seqnums.count(seqnum) > 1:\n                return True\n        return False",
+      "        return len(set(recoverable_seqnums)) != len(recoverable_seqnums)", None),
+    M("classify-benign-versionmap-key", SM,
+      "        for ( (server, shnum), (verinfo, timestamp) ) in list(self._known_shares.items()):\n            versionmap.add(verinfo, (shnum, server, timestamp))",
+      "        for (key, (verinfo, timestamp)) in list(self._known_shares.items()):\n            versionmap.add(verinfo, (key[1], key[0], timestamp))", None),
+    M("classify-benign-newer-continue", SM,
+      "            if seqnum > highest_recoverable_seqnum:\n                newversions[verinfo] = healths[verinfo]\n",
+      "            if seqnum <= highest_recoverable_seqnum:\n                continue\n            newversions[verinfo] = healths[verinfo]\n", None),
+    # ---- C14.8 the servermap the repair decides on
+    M("repair-reuses-check-servermap", REP,     # seeded C14-B
+      "        u = ServermapUpdater(self.node, self._storage_broker, self._monitor,\n                             ServerMap(), MODE_REPAIR)\n",
+      "        smap = self.check_results.get_servermap()\n        if smap is not None and self.node.get_privkey():\n"
+      "            return defer.maybeDeferred(self._got_full_servermap, smap, force)\n"
+      "        u = ServermapUpdater(self.node, self._storage_broker, self._monitor,\n                             ServerMap(), MODE_REPAIR)\n", "C14.8"),
+    M("repair-chain-starts-from-check-servermap", REP, "        d = u.update()\n",
+      "        d = defer.succeed(self.check_results.get_servermap())\n", "C14.8"),
+    M("repair-mapupdate-in-write-mode", REP, "                             ServerMap(), MODE_REPAIR)\n", "                             ServerMap(), MODE_WRITE)\n",
+      "C14.8", edits=[(REP, "from allmydata.mutable.common import MODE_REPAIR\n", "from allmydata.mutable.common import MODE_REPAIR, MODE_WRITE\n")]),
+    M("repair-mode-stops-at-boundary", SM, "        if self.mode in (MODE_CHECK, MODE_REPAIR):\n            # We want to query all of the servers.\n",
+      "        if self.mode in (MODE_CHECK,):\n            # We want to query all of the servers.\n", "C14.8"),
+    M("repair-callback-swaps-servermap", REP, "        d = u.update()\n",
+      "        d = u.update()\n        d.addCallback(lambda smap: self.check_results.get_servermap() or smap)\n", "C14.8"),
+    M("filenode-repair-skips-mapupdate", NODE, "        d = r.start(force)\n",
+      "        d = defer.maybeDeferred(r._got_full_servermap, check_results.get_servermap(), force)\n", "C14.8"),
+    M("repair-map-benign-lambda-callback", REP, "        d.addCallback(self._got_full_servermap, force)\n",
+      "        d.addCallback(lambda smap: self._got_full_servermap(smap, force))\n", None),
+    M("repair-map-benign-keyword-mode", REP,
+      "        u = ServermapUpdater(self.node, self._storage_broker, self._monitor,\n                             ServerMap(), MODE_REPAIR)\n"
+      "        if self._history:\n            self._history.notify_mapupdate(u.get_status())\n        d = u.update()\n",
+      "        updater = ServermapUpdater(self.node, self._storage_broker, self._monitor,\n                                   ServerMap(), mode=MODE_REPAIR)\n"
+      "        if self._history:\n            self._history.notify_mapupdate(updater.get_status())\n        d = updater.update()\n", None),
+    M("plain-check-in-read-mode", CHK, "class MutableChecker:\n    SERVERMAP_MODE = MODE_CHECK\n", "class MutableChecker:\n    SERVERMAP_MODE = MODE_READ\n",
+      "C14.8", edits=[(CHK, "from allmydata.mutable.common import MODE_CHECK, MODE_WRITE, CorruptShareError",
+                       "from allmydata.mutable.common import MODE_CHECK, MODE_READ, MODE_WRITE, CorruptShareError")]),
+    M("plain-check-default-mode", CHK, "                             servermap, self.SERVERMAP_MODE,\n                             add_lease=add_lease)",
+      "                             servermap, add_lease=add_lease)", "C14.8"),
+    M("check-mode-benign-repair-mode", CHK, "class MutableChecker:\n    SERVERMAP_MODE = MODE_CHECK\n",
+      "class MutableChecker:\n    SERVERMAP_MODE = MODE_REPAIR   # also queries every server\n",
+      None, edits=[(CHK, "from allmydata.mutable.common import MODE_CHECK, MODE_WRITE, CorruptShareError",
+                    "from allmydata.mutable.common import MODE_CHECK, MODE_REPAIR, MODE_WRITE, CorruptShareError")]),
     # ---- vanished anchor
     M("vanish-got-full-servermap", REP, "    def _got_full_servermap(self, smap, force):", "    def _got_full_servermapX(self, smap, force):",
       "ANALYSIS-ERROR"),
